@@ -21,9 +21,15 @@ Decided on the MIR of zcash_pool_migration::scheduling and zcash_protocol::zip31
           highest as most_recent - interval (absent => None) and test lowest <= highest before
           sampling; the lower bound is max(boundary_at_or_below(activation) + interval,
           boundary_at_or_above(funding))
+  CODE    Zip318Classification::to_code / from_code are inverse on the four classifications and an
+          unrecognised code decodes to Unknown
+  CLASSIFY the decision tables of classify / classify_preparation / classify_crossing (paths with
+          their tests), evaluated over an abstraction of the evidence (each field unanswered or
+          answered with a value of one of the classes the tests distinguish): nothing answered is
+          Unknown; Nonconforming is never retracted by a further answer; Conforms is changed by no
+          further answer except a negative confirmatory observation (the documented obligation)
 Not decided (value-level): termination of the rejection loops under biased streams, the wake-up
-schedule (coverage, minimality), monotonicity of the classification over the evidence lattice,
-uniformity of the draws.
+schedule (coverage, minimality), uniformity of the draws.
 """
 import re
 
@@ -533,6 +539,252 @@ def rule_anchor(chk, w):
                 chk.fail("ANCHOR", nm, "%s returns %s" % (nm, o), g.span.loc())
 
 
+def rule_grid_and_codes(chk, w):
+    """boundary_at_or_above / is_boundary have the prescribed arithmetic; the classification's integer
+    codes decode to what encoded them (unknown codes to Unknown)."""
+    ab = _one(chk, w, "ANCHOR", Z318 + "AnchorBucketInterval::boundary_at_or_above")
+    if ab is not None:
+        b, du = ab.body, defuse.DefUse(ab.body)
+        ret = defuse.show(du.origin_local(0))
+        m = re.match(r"from_u32\(_(\d+)\)$", ret)
+        alts = []
+        guard = None
+        if m:
+            l = int(m.group(1))
+            for kind, bi, x in du.defs.get(l, []):
+                if kind == "stmt" and x.rv.kind == "use":
+                    alts.append((bi, defuse.show(du.origin(x.rv.ops[0]))))
+                elif kind == "call":
+                    alts.append((bi, defuse.show(("call", x.callee.target_p(), [du.origin(a) for a in x.args]))))
+            sw = [(bi, blk.term) for bi, blk in enumerate(b.blocks) if not blk.cleanup and blk.term.kind == "switch"]
+            if len(sw) == 1 and defuse.show(du.origin(sw[0][1].discr)) == "(rem(from(arg1), *arg0.0) Eq 0)":
+                t = sw[0][1]
+                zero_tb = t.otherwise if [a for a, _x in t.arms] == [0] else dict(t.arms).get(1)
+                nz_tb = dict(t.arms).get(0)
+                guard = {}
+                for bi, txt in alts:
+                    if zero_tb is not None and (bi == zero_tb or b.dominates(zero_tb, bi)):
+                        guard["boundary"] = txt
+                    if nz_tb is not None and (bi == nz_tb or b.dominates(nz_tb, bi)):
+                        guard["between"] = txt
+        want = {"boundary": "from(arg1)",
+                "between": "saturating_add(from(arg1), (get(*arg0.0) Sub rem(from(arg1), *arg0.0)))"}
+        if guard == want:
+            chk.ok("ANCHOR", "boundary_at_or_above(h) = h when h % interval == 0, else h + (interval - h % interval) "
+                   "(saturating)", sample=True)
+        else:
+            chk.fail("ANCHOR", "boundary_at_or_above", "boundary_at_or_above computes %s" % (guard or alts), ab.span.loc())
+    ib = _one(chk, w, "ANCHOR", Z318 + "AnchorBucketInterval::is_boundary")
+    if ib is not None:
+        o = defuse.show(defuse.DefUse(ib.body).origin_local(0))
+        if o == "(rem(from(arg1), *arg0.0) Eq 0)":
+            chk.ok("ANCHOR", "is_boundary(h) = (h % interval == 0)")
+        else:
+            chk.fail("ANCHOR", "is_boundary", "is_boundary computes %s" % o, ib.span.loc())
+    # classification codes
+    tc = _one(chk, w, "CODE", Z318 + "Zip318Classification::to_code")
+    fc = _one(chk, w, "CODE", Z318 + "Zip318Classification::from_code")
+    if tc is None or fc is None:
+        return
+    cv = [v["name"] for v in w.adts[Z318 + "Zip318Classification"]["variants"]]
+    kv = [v["name"] for v in w.adts[Z318 + "Zip318TxKind"]["variants"]]
+
+    def leaf_const(b, tb):
+        cur, hops = tb, 0
+        while cur is not None and hops < 4:
+            hops += 1
+            for s in b.blocks[cur].stmts:
+                if s.kind == "=" and s.place.local == 0 and s.rv.kind == "use" and s.rv.ops[0].kind == "const":
+                    return s.rv.ops[0].info.get("v")
+            tt = b.blocks[cur].term
+            cur = tt.target if tt.kind == "goto" else None
+        return None
+    b, du = tc.body, defuse.DefUse(tc.body)
+    enc = {}
+    for bi, blk in enumerate(b.blocks):
+        t = blk.term
+        if blk.cleanup or t.kind != "switch":
+            continue
+        o = du.origin(t.discr)
+        txt = defuse.show(o[1]) if o[0] == "disc" else ""
+        if txt == "*arg0":
+            for v, tb in t.arms:
+                if isinstance(v, int) and v < len(cv) and b.blocks[tb].term.kind != "switch":
+                    c = leaf_const(b, tb)
+                    if c is not None:
+                        enc[cv[v]] = c
+        elif txt == "(*arg0 as Conforms).0":
+            for v, tb in t.arms:
+                if isinstance(v, int) and v < len(kv):
+                    c = leaf_const(b, tb)
+                    if c is not None:
+                        enc["Conforms(%s)" % kv[v]] = c
+    b, du = fc.body, defuse.DefUse(fc.body)
+    dec, other = {}, None
+    for bi, blk in enumerate(b.blocks):
+        t = blk.term
+        if blk.cleanup or t.kind != "switch" or defuse.show(du.origin(t.discr)) != "arg0":
+            continue
+        for v, tb in list(t.arms) + [("else", t.otherwise)]:
+            if tb is None:
+                continue
+            for s in b.blocks[tb].stmts:
+                if s.kind == "=" and s.place.local == 0 and s.rv.kind == "agg" and s.rv.agg[1] == Z318 + "Zip318Classification":
+                    name = s.rv.agg[2]
+                    if s.rv.ops:
+                        name = "%s(%s)" % (name, defuse.show(du.origin(s.rv.ops[0])).rsplit("::", 1)[-1].strip("{}"))
+                    if v == "else":
+                        other = name
+                    else:
+                        dec[v] = name
+    want_keys = {"Unknown", "Nonconforming"} | {"Conforms(%s)" % k for k in kv}
+    inv = {c: n for n, c in enc.items()}
+    known_ok = set(enc) == want_keys and len(inv) == len(enc) and \
+        all(dec.get(c, other) == n for n, c in enc.items()) and \
+        all(inv.get(c) == n for c, n in dec.items())
+    if known_ok and other == "Unknown":
+        chk.ok("CODE", "from_code(to_code(x)) = x for every classification %s; an unrecognised code decodes to Unknown"
+               % dict(sorted(enc.items(), key=lambda x: x[1])), sample=True)
+    else:
+        chk.fail("CODE", "tables", "to_code %s, from_code %s (other codes -> %s)" % (enc, dec, other), tc.span.loc())
+
+
+def rule_classify(chk, w):
+    """Monotonicity of classify over the information order of its evidence, decided on the decision
+    tables of classify / classify_preparation / classify_crossing (loop-free paths with the tests
+    they take), evaluated over an abstraction of the evidence: every field is unanswered or answered
+    with a value of one of the classes the tests distinguish."""
+    import itertools
+    fns = {n: _one(chk, w, "CLASSIFY", Z318 + n) for n in ("classify", "classify_preparation", "classify_crossing")}
+    if None in fns.values():
+        return
+    tables = {}
+    for n, f in fns.items():
+        b, du = f.body, defuse.DefUse(f.body)
+        try:
+            paths = G.loopfree_paths(b)
+        except ValueError as e:
+            chk.fail("CLASSIFY", n + "/paths", "%s is not loop-free (%s)" % (n, e), f.span.loc())
+            return
+        rows = []
+        for taken, blocks in paths:
+            conds = []
+            for sw, v in taken:
+                o = du.origin(b.blocks[sw].term.discr)
+                conds.append((defuse.show(o) if o[0] != "disc" else "disc(%s)" % defuse.show(o[1]), v,
+                              [a for a, _t in b.blocks[sw].term.arms]))
+            outs = []
+            for bi in blocks:
+                for s in b.blocks[bi].stmts:
+                    if s.kind == "=" and s.place.local == 0 and not s.place.proj and s.rv.kind == "agg":
+                        outs.append(s.rv.agg[2])
+                t = b.blocks[bi].term
+                if t.kind == "call" and t.dest is not None and t.dest.local == 0 and not t.dest.proj:
+                    outs.append(("call", t.callee.target_p().rsplit("::", 1)[-1],
+                                 [defuse.show(du.origin(a)) for a in t.args]))
+            if len(outs) != 1:
+                chk.fail("CLASSIFY", n + "/outcome", "a path of %s has the outcomes %s" % (n, outs), f.span.loc())
+                return
+            rows.append((conds, outs[0]))
+        tables[n] = rows
+    chk.analysed["classify_paths"] = {n: len(r) for n, r in tables.items()}
+    BOOLS = ["anchor_on_grid", "fee_is_canonical", "other_bundles_present", "expiry_is_canonical", "source_is_send_to_self"]
+    dom = {f_: [None, 0, 1] for f_ in BOOLS}
+    dom["source_actions"] = [None, "prep", "two", "preptwo", "other"]
+    dom["destination_actions"] = [None, 0, 1, 7]
+    dom["sole_destination_value"] = [None, "canon", "noncanon"]
+    fields = sorted(dom)
+
+    class Unrecognised(Exception):
+        pass
+
+    def ev(txt, st, arg2):
+        m = re.match(r"^eq\(&\*arg0\.(\w+), &core::option::Option::Some\{(\d)\}\)$", txt)
+        if m:
+            return int(st[m.group(1)] is not None and st[m.group(1)] == int(m.group(2)))
+        m = re.match(r"^disc\(\*arg0\.(\w+)\)$", txt)
+        if m:
+            return int(st[m.group(1)] is not None)
+        m = re.match(r"^\(\*arg0\.(\w+) as Some\)\.0$", txt)
+        if m and m.group(1) in st and isinstance(st[m.group(1)], int):
+            return st[m.group(1)]
+        if txt == "(arg2 Ne preparation_tx_actions(&*arg1))":
+            return int(arg2 not in ("prep", "preptwo"))
+        m = re.match(r"^\(arg2 Ne (\d+)\)$", txt)
+        if m and int(m.group(1)) == 2:
+            return int(arg2 not in ("two", "preptwo"))
+        if txt == "is_canonical_denomination(&*arg1, (*arg0.sole_destination_value as Some).0)":
+            return int(st["sole_destination_value"] == "canon")
+        raise Unrecognised(txt)
+
+    def run(n, st, arg2=None, depth=0):
+        hits = []
+        for conds, out in tables[n]:
+            ok = True
+            for txt, v, arms in conds:
+                x = ev(txt, st, arg2)
+                if (v == "else" and x in arms) or (v != "else" and x != v):
+                    ok = False
+                    break
+            if ok:
+                hits.append(out)
+        if len(hits) != 1:
+            raise Unrecognised("%d paths of %s match one evidence state" % (len(hits), n))
+        out = hits[0]
+        if isinstance(out, tuple):
+            if out[2][0] != "&*arg0" and out[2][0] != "arg0":
+                raise Unrecognised("callee is given other evidence: %s" % out[2][0])
+            if out[2][2] != "(*arg0.source_actions as Some).0":
+                raise Unrecognised("callee is given %s as the source action count" % out[2][2])
+            return run(out[1], st, st["source_actions"], depth + 1)
+        return out
+    CONFIRM = ("anchor_on_grid", "fee_is_canonical")
+    bad_mono, bad_refute, n_states = [], [], 0
+    try:
+        cache = {}
+        for vals in itertools.product(*[dom[f_] for f_ in fields]):
+            st = dict(zip(fields, vals))
+            cache[vals] = run("classify", st)
+        for vals, c in cache.items():
+            n_states += 1
+            for i, f_ in enumerate(fields):
+                if vals[i] is not None:
+                    continue
+                for nv in dom[f_][1:]:
+                    v2 = vals[:i] + (nv,) + vals[i + 1:]
+                    c2 = cache[v2]
+                    if c == "Nonconforming" and c2 != "Nonconforming":
+                        bad_refute.append((dict(zip(fields, vals)), f_, nv, c, c2))
+                    elif c == "Conforms" and c2 != "Conforms" and f_ not in CONFIRM:
+                        bad_mono.append((dict(zip(fields, vals)), f_, nv, c, c2))
+                    elif c == "Conforms" and c2 != "Conforms" and f_ in CONFIRM and nv != 0:
+                        bad_mono.append((dict(zip(fields, vals)), f_, nv, c, c2))
+        bottom = cache[tuple(None for _ in fields)]
+    except Unrecognised as e:
+        chk.fail("CLASSIFY", "tests", "classify tests something this rule does not understand: %s" % e, fns["classify"].span.loc())
+        return
+
+    def brief(x):
+        st, f_, nv, c, c2 = x
+        return "%s with %s learning %s=%s becomes %s" % (c, {k: v for k, v in st.items() if v is not None}, f_, nv, c2)
+    if bottom == "Unknown":
+        chk.ok("CLASSIFY", "with nothing answered the classification is Unknown")
+    else:
+        chk.fail("CLASSIFY", "bottom", "with nothing answered classify returns %s" % bottom, fns["classify"].span.loc())
+    if not bad_refute:
+        chk.ok("CLASSIFY", "a refutation is never retracted: Nonconforming stays Nonconforming under every further "
+               "answer (%d abstract evidence states)" % n_states, sample=True)
+    else:
+        chk.fail("CLASSIFY", "refute", "%d refinement(s) retract a refutation, e.g. %s" % (len(bad_refute), brief(bad_refute[0])),
+                 fns["classify"].span.loc())
+    if not bad_mono:
+        chk.ok("CLASSIFY", "a Conforms decision is changed by no further answer except a negative confirmatory "
+               "observation (anchor_on_grid / fee_is_canonical = false; documented obligation on the source)", sample=True)
+    else:
+        chk.fail("CLASSIFY", "monotone", "%d refinement(s) change a reached decision, e.g. %s" % (len(bad_mono), brief(bad_mono[0])),
+                 fns["classify"].span.loc())
+
+
 def main(tier):
     chk = Check("C17", "other", tier)
     chk.explanation = (
@@ -550,7 +802,9 @@ def main(tier):
     chk.rule("MONO", "broadcast heights start at the commit height and only grow (saturating)", floor=5)
     chk.rule("EXPIRY", "every Schedule / created or rebuilt transaction carries the canonical expiry of its height", floor=5)
     chk.rule("SHUFFLE", "shuffles are products of swaps", floor=2)
-    chk.rule("ANCHOR", "sampled anchors lie in the candidate set; bounds have the prescribed form", floor=9)
+    chk.rule("ANCHOR", "sampled anchors lie in the candidate set; bounds have the prescribed form", floor=11)
+    chk.rule("CODE", "classification codes decode to what encoded them", floor=1)
+    chk.rule("CLASSIFY", "classification is monotone in the evidence", floor=3)
     w = zf.World(extract.facts_dir("all"), ["zcash_pool_migration", "zcash_protocol"])
     rule_delay(chk, w)
     rule_mono(chk, w)
@@ -558,4 +812,6 @@ def main(tier):
     rule_expiry_tx(chk, w)
     rule_shuffle(chk, w)
     rule_anchor(chk, w)
+    rule_grid_and_codes(chk, w)
+    rule_classify(chk, w)
     chk.finish()
